@@ -52,7 +52,7 @@ def gen(rng, tier, idx):
          'encoding': rng.choice(['dense', 'csr', 'csc']), 'layer': rng.choice([None, None, 'raw_counts']),
          'h5_chunks': rng.choice([None, [1, 1], [3, 2], [1000, 1000]]),
          'genes': rng.choice(['ensembl', 'ensembl_versioned', 'symbols', 'mixed', 'mixed', 'collision',
-                              'duplicate', 'empty_name']),
+                              'duplicate', 'empty_name', 'dotted_symbols', 'mixed_dotted']),
          'dup_cells': rng.random() < 0.08, 'density': rng.choice([0.3, 0.7, 1.0]),
          'obs_cols': rng.random() < 0.6}
     return {'file': f, 'round_to_int': rng.random() < 0.75, 'explicit_mapper': rng.random() < 0.5,
@@ -100,7 +100,9 @@ def make_file(f):
     tab = mouse_table()
     syms = sorted(k for k in list(tab)[:4000] if not ENS.fullmatch(k))[:400]
     real_ens = sorted(set(v for v in list(tab.values())[:6000] if ENS.fullmatch(v) and '.' not in v))[:400]
-    sym_targets = set(tab[k2] for k2 in syms)
+    # known symbols that themselves contain a '.' (Tex19.1, H2-M10.2, ...): only the OUTPUT may be clipped
+    dotted = sorted(k for k in tab if '.' in k and not ENS.fullmatch(k) and ENS.fullmatch(tab[k]))
+    sym_targets = set(tab[k2] for k2 in syms) | set(tab[k2] for k2 in dotted)
     real_ens = [e for e in real_ens if e not in sym_targets] or real_ens
     g = f['genes']
     genes = []
@@ -111,6 +113,10 @@ def make_file(f):
             genes.append('%s.%d' % (real_ens[(f['seed'] + i) % len(real_ens)], 1 + i % 3))
         elif g == 'symbols':
             genes.append(syms[(f['seed'] + 7 * i) % len(syms)])
+        elif g == 'dotted_symbols' and dotted:
+            genes.append(dotted[(f['seed'] + 5 * i) % len(dotted)])
+        elif g == 'mixed_dotted' and dotted and i % 2 == 0:
+            genes.append(dotted[(f['seed'] + 5 * i) % len(dotted)])
         else:
             k = i % 4
             genes.append([real_ens[(f['seed'] + i) % len(real_ens)], '%s.2' % real_ens[(f['seed'] + i) % len(real_ens)],
